@@ -173,8 +173,16 @@ func c02hCheck(sc *hhScenario, obs *hhObs, r *vrt.Result, report func(kind, deta
 				}
 				switch {
 				case f.Body == "":
+				case rq.RespBody > 0 && strings.HasPrefix(f.Body, "resp-of-"+rq.Token+":") && f.Body != hhBigBody(rq.Token, rq.RespBody):
+					// a large body (several write chunks): it starts as this exchange's body, but not every byte of it is this
+					// exchange's - something else was written into the middle of the response
+					report("response body is not one exchange's body (own body interrupted by bytes written for another response)", where+fmt.Sprintf("; first foreign byte at body offset %d of %d", c02hFirstDiff(f.Body, hhBigBody(rq.Token, rq.RespBody)), len(f.Body)))
 				case strings.HasPrefix(f.Body, "resp-of-"):
-					if f.Body != "resp-of-"+rq.Token {
+					want := "resp-of-" + rq.Token
+					if rq.RespBody > 0 {
+						want = hhBigBody(rq.Token, rq.RespBody)
+					}
+					if f.Body != want {
 						report("response delivered to a request it was not produced for (body)", where)
 					} else if f.rtoken() == "" {
 						kind := "response header and body come from different exchanges"
@@ -219,6 +227,14 @@ func c02hCheck(sc *hhScenario, obs *hhObs, r *vrt.Result, report func(kind, deta
 			}
 		}
 	}
+}
+
+func c02hFirstDiff(a, b string) int {
+	i := 0
+	for i < len(a) && i < len(b) && a[i] == b[i] {
+		i++
+	}
+	return i
 }
 
 func c02hRun(p *vreport.Part, sc hhScenario, replay bool, maxExecs int) bool {
@@ -284,6 +300,135 @@ func TestVerifH1C02Correlation(t *testing.T) {
 	c02hMain("http1-proxy-correlation", c02hScenarios(),
 		"HTTP/1.1 scenarios (this shard): 2-4 requests with distinct tokens from one or two downstream connections (keep-alive sequential, pipelined) over the ping-pong pool of one or two hosts; upstream replies in order, racing the per-try / global timer, late after the timeout reply, unsolicited second responses, connection closed instead of / in the middle of / after the response, Connection: close, split reads, 5xx retried",
 		"the k-th response on a downstream connection answers the k-th request sent on it")
+}
+
+// ---------------------------------------------------------------------------
+// pipelining and large responses: one exchange at a time per downstream HTTP/1 connection
+//
+// HTTP/1 has no ids and no frames: the only thing that attributes a byte on a downstream connection to
+// a request is its position. MOSN's stream layer writes a response through a 4096-byte bufio.Writer
+// (fasthttp Response.WriteTo), i.e. a response larger than that reaches the connection in two Write calls
+// (4096 bytes = header block + start of the body, then the rest), and the connection keeps only ONE
+// Write call contiguous. What keeps the chunks of response N together, and response N+1 behind it, is
+// that the connection's serve goroutine does not parse request N+1 before the proxy is done with
+// response N. The scenarios: 2-3 pipelined (or keep-alive) requests on one downstream connection,
+// upstream responses with bodies of {default, 4097, 9000} bytes made of the request's own token byte,
+// a downstream reader that is slow from its 1st/2nd/3rd write on (hhScenario.DownStallAtWrite: the
+// writers blocked on the full socket are released together, in every order within the bound), an
+// upstream that answers the first request late.
+//
+// "Upstream replies reversed" does not exist here: on a downstream HTTP/1 connection request N+1 is not
+// even parsed, let alone forwarded, before response N is written (a harness that held reply N until
+// request N+1 arrives upstream would wait for ever on a correct MOSN); the late first reply (delay-ok)
+// is the closest environment behaviour that terminates on a correct MOSN and lets a MOSN that forwards
+// N+1 early deliver response N+1 first.
+
+type c02hDeep struct {
+	sc    hhScenario
+	bound int
+	cap   int
+}
+
+func c02hPipeScenarios() []c02hDeep {
+	var out []c02hDeep
+	b1, cap1 := vreport.Pick(1, 2), vreport.Pick(20000, 60000)
+	add := func(tag string, bound, cap int, sc hhScenario) {
+		sc.Proto = "Http1"
+		if sc.RouteTimeoutMs == 0 {
+			sc.RouteTimeoutMs = 1000
+		}
+		sc.Name = hhScenarioName(&sc) + " (" + tag + ")"
+		out = append(out, c02hDeep{sc: sc, bound: bound, cap: cap})
+	}
+	rq := func(tok string, body bool, n int, script ...string) hhRequest {
+		return hhRequest{Token: tok, Body: body, RespBody: n, Script: script}
+	}
+	const small, mid, big = 0, 4097, 9000
+	// the core scenario, one deviation more than the rest (capped)
+	add("two large responses, slow reader from the 2nd write on", vreport.Pick(2, 3), vreport.Pick(50000, 200000),
+		hhScenario{Hosts: 1, Pipelined: true, DownStallAtWrite: 2, Requests: []hhRequest{rq("t1", true, big, hhOK), rq("t2", false, big, hhOK)}})
+	add("two large responses", b1, cap1, hhScenario{Hosts: 1, Pipelined: true, Requests: []hhRequest{rq("t1", true, big, hhOK), rq("t2", false, big, hhOK)}})
+	add("4097-byte then small response, slow reader from the 2nd write on", b1, cap1, hhScenario{Hosts: 1, Pipelined: true, DownStallAtWrite: 2, Requests: []hhRequest{rq("t1", false, mid, hhOK), rq("t2", true, small, hhOK)}})
+	add("two small responses, slow reader from the 1st write on", b1, cap1, hhScenario{Hosts: 1, Pipelined: true, DownStallAtWrite: 1, Requests: []hhRequest{rq("t1", true, small, hhOK), rq("t2", false, small, hhOK)}})
+	add("three responses 9000/4097/small, slow reader from the 2nd write on", b1, cap1, hhScenario{Hosts: 1, Pipelined: true, DownStallAtWrite: 2, Requests: []hhRequest{rq("t1", true, big, hhOK), rq("t2", false, mid, hhOK), rq("t3", true, small, hhOK)}})
+	add("three responses 4097/9000/9000, two hosts, slow reader from the 3rd write on", b1, cap1, hhScenario{Hosts: 2, Pipelined: true, DownStallAtWrite: 3, Requests: []hhRequest{rq("t1", false, mid, hhOK), rq("t2", true, big, hhOK), rq("t3", false, big, hhOK)}})
+	add("three large responses, slow reader from the 1st write on", b1, cap1, hhScenario{Hosts: 1, Pipelined: true, DownStallAtWrite: 1, Requests: []hhRequest{rq("t1", false, big, hhOK), rq("t2", false, big, hhOK), rq("t3", false, big, hhOK)}})
+	add("first reply late, two hosts", b1, cap1, hhScenario{Hosts: 2, Pipelined: true, ReplyDelayMs: 50, Requests: []hhRequest{rq("t1", true, big, hhDelayOK), rq("t2", false, big, hhOK)}})
+	add("keep-alive, large responses, slow reader from the 2nd write on", b1, cap1, hhScenario{Hosts: 1, DownStallAtWrite: 2, Requests: []hhRequest{rq("t1", true, big, hhOK), rq("t2", false, mid, hhOK)}})
+	add("large 5xx retried, slow reader from the 2nd write on", b1, cap1, hhScenario{Hosts: 2, Pipelined: true, RetryOn: true, NumRetries: 1, DownStallAtWrite: 2, Requests: []hhRequest{rq("t1", true, big, hhErr, hhOK), rq("t2", false, big, hhOK)}})
+	if vreport.Thorough() {
+		// every size vector over {small, 4097, 9000} for two requests (and the vectors of three that start
+		// with a large one), every stall point 0..4
+		sizes := []int{small, mid, big}
+		for stall := 0; stall <= 4; stall++ {
+			for _, a := range sizes {
+				for _, b := range sizes {
+					add(fmt.Sprintf("sizes %d/%d", a, b), 2, cap1, hhScenario{Hosts: 1, Pipelined: true, DownStallAtWrite: stall, Requests: []hhRequest{rq("t1", true, a, hhOK), rq("t2", false, b, hhOK)}})
+					add(fmt.Sprintf("sizes 9000/%d/%d", a, b), 2, cap1, hhScenario{Hosts: 1, Pipelined: true, DownStallAtWrite: stall, Requests: []hhRequest{rq("t1", false, big, hhOK), rq("t2", true, a, hhOK), rq("t3", false, b, hhOK)}})
+				}
+			}
+		}
+		add("two clients pipeline large responses over one host", 2, cap1, hhScenario{Hosts: 1, Pipelined: true, DownStallAtWrite: 2, Requests: []hhRequest{rq("t1", true, big, hhOK), {Token: "t2", Conn: 1, RespBody: big, Script: []string{hhOK}}, rq("t3", false, big, hhOK), {Token: "t4", Conn: 1, Body: true, RespBody: mid, Script: []string{hhOK}}}})
+	}
+	return out
+}
+
+func TestVerifH1C02Pipelined(t *testing.T) {
+	const part = "http1-pipelined-whole-responses"
+	p := vreport.Begin("C02", part, time.Hour)
+	var rc hhScenario
+	if vreport.Replaying() {
+		if vreport.ReplayFor("C02", part, &rc) {
+			c02hRun(p, rc, true, 1)
+			p.End(true, "replay", "replay of one recorded schedule")
+		}
+		return
+	}
+	si, sn := vreport.Shard()
+	complete := true
+	n, chunked := 0, 0
+	for i, d := range c02hPipeScenarios() {
+		sc := d.sc
+		if only := os.Getenv("VERIF_C02H_ONLY"); only != "" {
+			if sc.Name != only || si != 0 {
+				continue
+			}
+		} else if i%sn != si {
+			continue
+		}
+		sc.Bound = d.bound
+		if b, err := strconv.Atoi(os.Getenv("VERIF_C02H_BOUND")); err == nil {
+			sc.Bound = b // experiments only
+		}
+		if dt := hhDeterminism(sc); dt != "" {
+			vreport.HarnessError("C02", part, "nondeterministic scenario "+sc.Name+": "+dt)
+			complete = false
+			continue
+		}
+		// vacuity guard: on the default schedule every response with a body of more than 4096 bytes must have
+		// reached the downstream connection in more than one Write call (otherwise the scenario does not
+		// exercise what it is there for)
+		{
+			obs := &hhObs{}
+			vrt.Explore(vrt.Options{Replay: true, Delay: true, MaxSteps: 300000}, func() { hhBody(&sc, obs) }, func(r *vrt.Result) {
+				for _, dn := range obs.Downs {
+					if len(dn.Conn.Writes) > len(dn.Responses) {
+						chunked++
+						return
+					}
+				}
+			})
+		}
+		if !c02hRun(p, sc, false, d.cap) {
+			complete = false
+			p.Count("scenarios_cut_by_execution_cap", 1)
+		}
+		n++
+	}
+	p.Note("scenarios", n)
+	p.Note("scenarios_with_a_response_written_in_several_write_calls", chunked)
+	p.End(complete, fmt.Sprintf("%d HTTP/1.1 scenarios (this shard): 2-3 (thorough: up to 4) requests pipelined (one read) or keep-alive on one downstream connection (thorough: also two connections), scripted upstream responses with bodies of {default, 4097, 9000} bytes (written downstream in one or two Write calls: 4096-byte bufio.Writer), a downstream reader slow from its 1st/2nd/3rd (thorough 0..4th) Write call on, a late first upstream reply, a large 5xx retried; all schedules with <=%d deviations (the core scenario - two 9000-byte responses, slow reader from the 2nd write on - <=%d, first %d executions)", n, vreport.Pick(1, 2), vreport.Pick(2, 3), vreport.Pick(50000, 200000)),
+		"the bytes written on a downstream connection must parse as a sequence of complete HTTP/1 responses; the k-th of them must carry status, header token, serial and body of the exchange of the k-th request sent on the connection, and every byte of a large body must be that exchange's (prefix resp-of-<token>: then the token's last byte repeated): no byte written for another response inside it, no response overtaking an earlier one; one evaluation = one complete execution; distinct = distinct (scenario, downstream responses, upstream attempts, peer actions)")
 }
 
 // c02h2Scenarios: HTTP/2 downstream and upstream (pkg/stream/http2 + pkg/module/http2, multiplexed
